@@ -250,6 +250,15 @@ func childObject(a J, decoy bool) (*security.ChildSAKey, J) {
 			}
 		}
 	}
+	// a caller may give the object key storage of its own: four empty slices with room for the keys, side by side in one buffer
+	// (every other object; nil fields otherwise)
+	if (gi(a, "encr")/64+len(gs(a, "integ"))+len(gox(a, "nonce")))%2 == 0 {
+		arena := make([]byte, 4*64)
+		c.InitiatorToResponderEncryptionKey = arena[0:0:64]
+		c.InitiatorToResponderIntegrityKey = arena[64:64:128]
+		c.ResponderToInitiatorEncryptionKey = arena[128:128:192]
+		c.ResponderToInitiatorIntegrityKey = arena[192:192:256]
+	}
 	return c, ret
 }
 
